@@ -34,7 +34,8 @@ RECURSIVE Process(_, _, _, _, _, _, _)
 Process(hs, info, j, base, canonicalize, unique, acc) ==      \* acc = <<links so far, already_seen>>
   IF j > Len(hs) THEN acc[1]
   ELSE LET h == hs[j]
-           u0 == IF HasProtocol(h) THEN h ELSE info[j].res
+           \* only an href with a protocol of its own is taken as is: relative and scheme-relative ('//host/x') ones are resolved
+           u0 == IF HasProtocol(h) /\ ~StartsWith(h, <<47, 47>>) THEN h ELSE info[j].res
            u == IF canonicalize THEN info[j].canon ELSE u0
            skip == h = <<>> \/ ~Followable(h) \/ ~info[j].isurl \/ u = base \/ (unique /\ u \in acc[2])
        IN Process(hs, info, j + 1, base, canonicalize, unique, IF skip THEN acc ELSE <<Append(acc[1], u), acc[2] \cup {u}>>)
